@@ -65,7 +65,7 @@ def _native_work(case):
         for label, how in (("async", "render"), ("async", "render_async")):
             got = run(envs[label], how, di)
             n += 1
-            if got != base and "Probe" not in base[1] and " object at 0x" not in base[1]:
+            if got != base and "Probe" not in base[1] and not __import__("re").search(r"(?i) at 0x[0-9a-f]+", str(base[1])):
                 out.append({"case": case["id"], "d": di, "how": f"native/{label}/{how}", "sync": base, "got": got,
                             "src": srcs})
     return out, n
@@ -100,7 +100,7 @@ def _diff_work(chunk):
                     res.append(("ok", r))
                 except Exception as e:  # noqa
                     res.append(("err", type(e).__name__))
-            if "random" in p["src"] or "pprint" in p["src"] or __import__("re").search(r" at 0x[0-9a-f]+", str(res)):
+            if "random" in p["src"] or "pprint" in p["src"] or __import__("re").search(r"(?i) at 0x[0-9a-f]+", str(res)):
                 continue
             if res[1] != res[0] or res[2] != res[0]:
                 out.append({"src": p["src"], "tag": p["tag"], "auto": auto, "sync": res[0], "async_render": res[1], "render_async": res[2]})
